@@ -232,7 +232,7 @@ func runScenarioWith(sc scn, seed int64, f *fault, readTimeout time.Duration, ba
 		}
 		mu.Unlock()
 		if match {
-			if f.Kind == "callback-fail" {
+			if f.Kind == "callback-fail" || f.Kind == "callback-fail-wrapping-exception" {
 				return true
 			}
 			fire(full)
@@ -302,6 +302,11 @@ func runScenarioWith(sc scn, seed int64, f *fault, readTimeout time.Duration, ba
 	q := ch.Query{Body: "Q " + sc.Name, QueryID: "qid"}
 	cb := func(name string) error {
 		if gate("cb:" + name) {
+			if f != nil && f.Kind == "callback-fail-wrapping-exception" {
+				// the callback failed because of a server exception on *another* connection (e.g. it
+				// forwards rows into an INSERT elsewhere): still a callback failure of this query
+				return fmt.Errorf("%w: forwarding rows: %w", errInjected, &ch.Exception{Code: proto.ErrUnknownTable, Name: "DB::Exception", Message: "table gone (other connection)"})
+			}
 			return errInjected
 		}
 		return nil
